@@ -9,7 +9,7 @@ import tempfile
 from hypothesis import strategies as st
 
 from .. import spec as SP
-from ..core import Failure, drive, drive_enum
+from ..core import sstr, Failure, drive, drive_enum
 from ..gen import models as M
 from ..ref import commands as R
 
@@ -218,14 +218,14 @@ def judge(case_id, text, tmp, io, expect, rec, sig, writer_first=False):
         return fails
     if expect[0] == "accept":
         if status == "error" and kind in WELLFORMEDNESS_ERRORS:
-            fails.append(Failure("%s|wellformed_rejected:%s" % (sig, kind), "%s\n%s" % (str(exc)[:300], text)))
+            fails.append(Failure("%s|wellformed_rejected:%s" % (sig, kind), "%s\n%s" % (sstr(exc)[:300], text)))
         return fails
     classes, attrs = expect[1], expect[2]
     if status == "ok":
         fails.append(Failure("%s|illformed_accepted" % sig, "expected %s for\n%s" % ("/".join(classes), text)))
         return fails
     if kind not in classes:
-        fails.append(Failure("%s|wrong_error:%s" % (sig, kind), "expected %s, got %s: %s\n%s" % ("/".join(classes), kind, str(exc)[:200], text)))
+        fails.append(Failure("%s|wrong_error:%s" % (sig, kind), "expected %s, got %s: %s\n%s" % ("/".join(classes), kind, sstr(exc)[:200], text)))
     else:
         bad = attr_ok(exc, attrs)
         if bad:
@@ -371,15 +371,17 @@ def model_commands(model):
 
 
 WRONG = {
-    "number": [("word", {"s": "abc"}), ("list", [1, 2]), ("tuple", {"t": {"k": "v"}})],
-    "numbers": [("number", 3), ("word", {"s": "abc"}), ("tuple", {"t": {"k": "v"}}), ("list_of_words", [{"s": "x"}, {"s": "y"}])],
-    "boolean": [("word", {"s": "maybe"}), ("list", [1]), ("decimal", 0.5)],
-    "data": [("number", 5), ("list", [1]), ("missing_name", {"r": "Nowhere"})],
-    "datas": [("number", 5), ("name_not_list", None), ("list_with_number", None), ("list_with_missing_name", None)],
-    "path": [("number", 5), ("list", [{"s": "a.csv"}])],
-    "path!": [("number", 5), ("list", [{"s": "a.csv"}]), ("missing_file", {"s": "no_such_file.csv"})],
-    "datatype": [("word", {"s": "Double"}), ("number", 5), ("list", [{"s": "Float"}])],
-    "tuple": [("number", 5), ("word", {"s": "abc"}), ("list", [1, 2])],
+    "number": [("word", {"s": "abc"}), ("list", [1, 2]), ("tuple", {"t": {"k": "v"}}), ("empty_text", {"s": ""}), ("empty_list", [])],
+    "numbers": [("number", 3), ("word", {"s": "abc"}), ("tuple", {"t": {"k": "v"}}), ("list_of_words", [{"s": "x"}, {"s": "y"}]),
+                ("zero", 0), ("zero_decimal", 0.0), ("empty_text", {"s": ""})],
+    "boolean": [("word", {"s": "maybe"}), ("list", [1]), ("decimal", 0.5), ("empty_text", {"s": ""}), ("empty_list", [])],
+    "data": [("number", 5), ("list", [1]), ("missing_name", {"r": "Nowhere"}), ("zero", 0), ("empty_list", [])],
+    "datas": [("number", 5), ("name_not_list", None), ("list_with_number", None), ("list_with_missing_name", None),
+              ("zero", 0), ("zero_decimal", 0.0), ("empty_text", {"s": ""})],
+    "path": [("number", 5), ("list", [{"s": "a.csv"}]), ("zero", 0), ("empty_list", [])],
+    "path!": [("number", 5), ("list", [{"s": "a.csv"}]), ("missing_file", {"s": "no_such_file.csv"}), ("zero", 0), ("empty_list", [])],
+    "datatype": [("word", {"s": "Double"}), ("number", 5), ("list", [{"s": "Float"}]), ("zero", 0), ("empty_text", {"s": ""})],
+    "tuple": [("number", 5), ("word", {"s": "abc"}), ("list", [1, 2]), ("zero", 0), ("empty_text", {"s": ""})],
     "string": [("number", 5), ("list", [1])],
 }
 
